@@ -12,6 +12,7 @@ import (
 	"fmt"
 	"math/rand"
 	"strings"
+	"syscall"
 
 	"verifharness/core"
 	"verifharness/diffrun"
@@ -36,6 +37,12 @@ var c11RuleBodies = []string{
 	"r = getline $2; print \"g2\", r; %T",
 	"r = getline arr[NR]; print \"ga\", r, arr[NR - 1], arr[NR]; %T",
 	"while ((getline line) > 0 && ++n < %K) print \"loop\", line, NR, FNR; %T",
+	// a getline that reads nothing (end of input, empty file, silent command) leaves its target alone
+	"arr[\"keep\"] = \"kept\"; r = (getline arr[\"keep\"] < \"in2\"); print \"gak\", r, arr[\"keep\"], length(arr); %T",
+	"r = (getline fresh[NR] < \"in2\"); print \"gae\", r, length(fresh), (NR in fresh); %T",
+	"kv = \"kept\"; r = (getline kv < \"in2\"); $3 = \"f3\"; r2 = (getline $3 < \"in2\"); print \"gkv\", r, r2, kv, $3, NF; %T",
+	"r = (\"lines:c:0\" | getline carr[1]); print \"gca\", r, length(carr), (1 in carr); close(\"lines:c:0\"); %T",
+	"if (FNR == 1) { ns = 0; delete S; while ((getline S[++ns] < \"in1\") > 0) ; close(\"in1\"); print \"slurp\", ns, length(S), (ns in S) }; %T",
 	"skip(); %T",
 	"x = \"a\" skipif(%K) \"b\"; print x; %T",
 	"y = 1 + quitif(%K); %T",
@@ -74,6 +81,8 @@ var c11End = []string{
 	"print \"E\"; while ((getline line < \"in1\") > 0) n1++; print n1, NR, FNR",
 	"if (NR > 2) exit 5; print \"E\", NR",
 	"print \"E\", NR, FNR, FILENAME; nf()",
+	"last[1] = \"saved\"; r = getline last[1]; r2 = getline lv; print \"E\", r, r2, last[1], length(last), \"[\" lv \"]\"",
+	"while ((getline EA[++ne] < \"in1\") > 0) ; print \"E\", ne, length(EA), (ne in EA); r = getline EA[\"end\"]; print r, (\"end\" in EA)",
 	"",
 }
 
@@ -268,6 +277,15 @@ func init() {
 			if err := diffrun.Prepare(c.WorkDir()); err != nil {
 				c.Inconclusive("chdir: " + err.Error())
 				return
+			}
+			// A small descriptor budget for this batch process: a file that is abandoned (nextfile,
+			// end of file, close) but not closed shows as "too many open files" on the long cases
+			// (1200 operands) instead of passing unnoticed under the system's generous default.
+			var rl syscall.Rlimit
+			if syscall.Getrlimit(syscall.RLIMIT_NOFILE, &rl) == nil && rl.Cur > 300 {
+				rl.Cur = 300
+				_ = syscall.Setrlimit(syscall.RLIMIT_NOFILE, &rl)
+				c.Count("descriptor_limit_300", 1)
 			}
 			for i := 0; i < 22; i++ {
 				if c.Mine(i) {
